@@ -66,6 +66,17 @@ def property_on_impl(ant, srcs, c):
     for s0, s1 in zip(m0.sources, m1.sources):
         if abs(s0.impedance - s1.impedance) > tol * abs(s0.impedance):
             return 'impedance changes under voltage scaling: %r vs %r' % (s0.impedance, s1.impedance)
+    # ... and the dBi pattern, with and without a requested power level
+    import farlib
+    ths, phs = [20.0, 75.0], [10.0, 200.0]
+    for kw in ({}, dict(pwr=25.0, dist=300.0)):
+        g0 = farlib.impl_far(m0, ths, phs, **kw); g1 = farlib.impl_far(m1, ths, phs, **kw)
+        mx = max(v['db'][2] for v in g0.values())
+        for kk in g0:
+            a, b = g0[kk]['db'][2], g1[kk]['db'][2]
+            if a > mx - 40 and abs(a - b) > 1e-6 + 20 * tol:
+                return ('multiplying all voltages by %r changes the dBi pattern%s: %.5f dBi becomes %.5f dBi at %r'
+                        % (c, ' (power level of 25 W requested)' if kw else '', a, b, kk))
     if len({p for p, v in srcs}) == len(srcs) and len(srcs) > 1:
         tot = np.zeros(len(m0.pulses), dtype=complex)
         for k in range(len(srcs)):
